@@ -133,7 +133,10 @@ fn write_batch(name: &str, modules: Vec<(usize, Module)>) -> std::io::Result<Bat
     std::fs::create_dir_all(dir.join("src"))?;
     std::fs::create_dir_all(dir.join(".cargo"))?;
     let tmpl = verif_root().join("gen_farm");
-    std::fs::write(dir.join("Cargo.toml"), std::fs::read_to_string(tmpl.join("Cargo.toml.tmpl"))?)?;
+    // one crate (and binary) name per batch so that checks running at the same time share the compiled
+    // dependencies in the common target directory but never each other's binary
+    let crate_name = format!("farm_{}", name.to_lowercase().replace('-', "_"));
+    std::fs::write(dir.join("Cargo.toml"), std::fs::read_to_string(tmpl.join("Cargo.toml.tmpl"))?.replace("name = \"farm\"", &format!("name = \"{crate_name}\"")))?;
     std::fs::write(dir.join(".cargo").join("config.toml"), std::fs::read_to_string(tmpl.join(".cargo").join("config.toml"))?)?;
     std::fs::copy("/repo/Cargo.lock", dir.join("Cargo.lock"))?;
     std::fs::write(dir.join("src").join("ut.rs"), std::fs::read_to_string(tmpl.join("src").join("ut.rs"))?)?;
@@ -209,9 +212,9 @@ fn hex(s: &str) -> String {
 }
 
 /// run the compiled farm binary for one module on inputs
-fn run_module(idx: usize, inputs: &[String]) -> Result<Vec<(bool, usize, Vec<String>)>, String> {
+fn run_module(batch_name: &str, idx: usize, inputs: &[String]) -> Result<Vec<(bool, usize, Vec<String>)>, String> {
     use std::io::Write;
-    let exe = farm_root().join("target").join("debug").join("farm");
+    let exe = farm_root().join("target").join("debug").join(format!("farm_{}", batch_name.to_lowercase().replace('-', "_")));
     let mut child = std::process::Command::new(exe)
         .arg(idx.to_string())
         .stdin(std::process::Stdio::piped())
@@ -461,7 +464,7 @@ pub fn run(id: &str, tier: Tier, replay: Option<&str>) -> i32 {
             }
             acc.distinct(&(m.case.par.clone(), m.case.min_boxed, m.case.range, m.case.trim));
             if !c22 && !m.case.tokens.is_empty() {
-                c23_module(*i, m, &acc);
+                c23_module(&format!("{id}-b{batch_no}"), *i, m, &acc);
             }
         }
         let _ = std::fs::remove_dir_all(&b.dir);
@@ -508,12 +511,12 @@ fn cause_class(base: &str, par: &str) -> String {
     base.to_string()
 }
 
-fn c23_module(idx: usize, m: &Module, acc: &Acc) {
+fn c23_module(batch_name: &str, idx: usize, m: &Module, acc: &Acc) {
     let case = &m.case;
     let inputs = inputs_for(&case.tokens, 4);
     let short = case.par.replace('\n', " ");
     let mkv = |class: &str, what: String| Violation { class: class.into(), what, case: json!({"farm": case}), detail: json!({}) };
-    let res = match run_module(idx, &inputs) {
+    let res = match run_module(batch_name, idx, &inputs) {
         Ok(r) => r,
         Err(e) => {
             acc.violation(mkv("compiled_parser_crashes", format!("{short}: {e}")));
